@@ -350,7 +350,11 @@ def body(ctx):
             ok = rep == impl
         elif kind == "binary":
             mv = [C.h2f(t) for t in rep.split(" ")]
-            ok = all(C.close(a, b, rel=1e-12) for a, b in zip(impl, mv))
+            (tn, fp), (fn, tp) = case["table"]
+            # 1-H and 1-F are formed by subtraction: the odds ratio (hence LOR, ORSS) is conditioned by the smallest rate
+            amp = 1.0 / min(tp / (tp + fn), fn / (tp + fn), fp / (fp + tn), tn / (fp + tn))
+            ok = all(C.close(a, b, rel=1e-12) for a, b in zip(impl[:7], mv[:7])) and \
+                all(C.close(a, b, rel=4e-15 * amp, abs_=4e-15 * amp) for a, b in zip(impl[7:], mv[7:]))
         if not ok:
             ctx.disagree(f"C04/{kind}: implementation and model differ",
                          {"request": req[:2000], "impl": impl, "model": rep[:2000], **case})
